@@ -405,6 +405,12 @@ fn gen_cells(out: &mut Out, rng: &mut Rng, thorough: bool, prop: &str) {
     if prop == "C06" {
         gen_pushbits(out, rng, thorough);
     }
+    if prop == "C01" {
+        crate::unitops::gen_place(out, rng, thorough);
+    }
+    if prop == "C02" {
+        crate::unitops::gen_structure(out, rng, thorough);
+    }
     let caps = caps();
     for v in 0..40usize {
         for e in 0..4usize {
@@ -792,6 +798,8 @@ pub fn select_line(input: &[u8], e: usize, md: usize, v: usize, forced: Option<u
 }
 
 fn gen_c11(out: &mut Out, rng: &mut Rng, thorough: bool) {
+    crate::unitops::gen_lines(out, rng, thorough);
+    crate::unitops::gen_squares(out, rng, thorough);
     let caps = caps();
     let cells: Vec<(usize, usize)> = if thorough {
         (0..40).flat_map(|v| (0..4).map(move |e| (v, e))).collect()
